@@ -163,8 +163,11 @@ def finish(ctx):
         "wall_s": round(time.time() - ctx.t0, 2),
         "violations": len(new),
     }
-    os.makedirs(os.path.join(ROOT, "evidence"), exist_ok=True)
-    with open(os.path.join(ROOT, "evidence", ctx.pid + ".json"), "w") as fh:
+    # evidence/ describes runs against /repo itself; a run against a scratch tree (VERIF_REPO, used to try the
+    # checks on seeded changes) leaves its record next to its other scratch files
+    evdir = os.path.join(ROOT, ".work", "evidence-scratch") if os.environ.get("VERIF_REPO") else os.path.join(ROOT, "evidence")
+    os.makedirs(evdir, exist_ok=True)
+    with open(os.path.join(evdir, ctx.pid + ".json"), "w") as fh:
         json.dump(ev, fh, indent=1, default=str)
     shutil.rmtree(ctx.work, ignore_errors=True)
     print(
